@@ -14,7 +14,7 @@ def main():
     scs = spec['scenarios']
     names = args[3:] or list(scs)
     for sc in names:
-        r = driver.verify(pyfile, fn, m.L, spec['setup'](scs[sc]), spec['on_outcomes'],
+        r = driver.verify(pyfile, spec.get('function', fn), m.L, spec['setup'](scs[sc]), spec['on_outcomes'],
                           config=spec.get('config'), scenario=sc)
         print('==', fn, sc, r['status'], (r.get('reason') or '')[-1500:], 'paths', r['paths'],
               '%.1fs' % r.get('wall_s', 0), 'checks', r.get('checks'))
